@@ -27,10 +27,20 @@ import (
 
 func init() { register("c11", runC11) }
 
-const (
+// buffer sizes of the implementation under test (numBuffers/writeBufSize/readBufSize are
+// unexported; the slices are exported): probed from a real Conn by c11ProbeSizes
+var (
 	c11WriteBuf = 64 * 1024
 	c11ReadBuf  = 1024 * 1024
 )
+
+func c11ProbeSizes() {
+	w := newC11Wire(nil, false)
+	conn := p2p.NewConn(&c11End{r: w, w: w})
+	c11WriteBuf = len(conn.WriteBuf)
+	c11ReadBuf = len(conn.ReadBuf)
+	conn.Close()
+}
 
 // ---- script
 
@@ -52,6 +62,7 @@ type c11Op struct {
 	v     int
 	data  []byte // payload bytes (always materialised on the Go side)
 	gen   bool   // payload described as (n, seed) to the model
+	cyc   bool   // gen: cyclic repetition of a 4093-byte block (multi-megabyte payloads)
 	seed  int
 	label ot.Label
 	sizes []int
@@ -68,7 +79,21 @@ func c11GenBytes(n, seed int) []byte {
 	return out
 }
 
+// c11CycBytes: the first n bytes of the endless repetition of c11GenBytes(4093, seed)
+// (mirrored by RunC11.cycle_take).
+func c11CycBytes(n, seed int) []byte {
+	blk := c11GenBytes(4093, seed)
+	out := make([]byte, n)
+	for i := 0; i < n; i += len(blk) {
+		copy(out[i:], blk)
+	}
+	return out
+}
+
 func (o c11Op) payloadSX() SX {
+	if o.gen && o.cyc {
+		return L(I(2), I(len(o.data)), I(o.seed))
+	}
 	if o.gen {
 		return L(I(1), I(len(o.data)), I(o.seed))
 	}
@@ -109,7 +134,7 @@ func (o c11Op) String() string {
 			n = "String"
 		}
 		if o.gen {
-			return fmt.Sprintf("%s(gen n=%d seed=%d)", n, len(o.data), o.seed)
+			return fmt.Sprintf("%s(gen n=%d seed=%d cyclic=%v)", n, len(o.data), o.seed, o.cyc)
 		}
 		return fmt.Sprintf("%s(%x)", n, o.data)
 	case c11KLabel:
@@ -168,7 +193,16 @@ func (v c11Val) encode() []byte {
 	return out
 }
 
-func c11BytesSX(b []byte) SX {
+// c11SparseSample: first 16 bytes, every 1021st byte, last 16 bytes (RunC11.sparse_sample).
+func c11SparseSample(b []byte) []byte {
+	out := append([]byte(nil), b[:16]...)
+	for j := 0; j < len(b); j += 1021 {
+		out = append(out, b[j])
+	}
+	return append(out, b[len(b)-16:]...)
+}
+
+func c11BytesSX(b []byte, sparse bool) SX {
 	if len(b) <= 32 {
 		items := []SX{I(0)}
 		for _, x := range b {
@@ -176,15 +210,18 @@ func c11BytesSX(b []byte) SX {
 		}
 		return L(items...)
 	}
+	if sparse {
+		return L(I(2), I(len(b)), U64(uint64(adler32.Checksum(c11SparseSample(b)))))
+	}
 	return L(I(1), I(len(b)), U64(uint64(adler32.Checksum(b))))
 }
 
-func (v c11Val) sx() SX {
+func (v c11Val) sx(sparse bool) SX {
 	switch v.kind {
 	case c11KByte, c11KU16, c11KU32:
 		return L(I(v.kind), U64(v.n))
 	case c11KData, c11KString:
-		return L(I(v.kind), c11BytesSX(v.data))
+		return L(I(v.kind), c11BytesSX(v.data, sparse))
 	case c11KLabel:
 		return L(I(c11KLabel), Label(v.label))
 	}
@@ -240,6 +277,7 @@ type c11Script struct {
 	rclass  string // match | retyped | prefix | overread
 	fclass  string // fragmentation class
 	eofData bool   // the transport returns its last bytes together with io.EOF
+	sparse  bool   // long byte strings are compared by a sparse digest (multi-megabyte payloads)
 }
 
 // ---- scripted transport (one direction)
@@ -453,10 +491,25 @@ type c11RecvRes struct {
 	vals  []c11Val
 	err   error
 	errAt int
+	// first receive after which Stats.Recvd differs from the bytes the transport has served
+	statAt    int
+	statRecvd uint64
+	statMoved uint64
 }
 
-func c11Recv(conn *p2p.Conn, kinds []int) c11RecvRes {
-	res := c11RecvRes{errAt: -1}
+func c11Recv(conn *p2p.Conn, kinds []int, wire *c11Wire, sparse bool) c11RecvRes {
+	res := c11RecvRes{errAt: -1, statAt: -1}
+	checkStats := func(i int) {
+		if wire == nil || res.statAt >= 0 {
+			return
+		}
+		wire.mu.Lock()
+		moved := uint64(wire.off)
+		wire.mu.Unlock()
+		if got := conn.Stats.Recvd.Load(); got != moved {
+			res.statAt, res.statRecvd, res.statMoved = i, got, moved
+		}
+	}
 	var ld ot.LabelData
 	for i, k := range kinds {
 		v := c11Val{kind: k}
@@ -493,10 +546,12 @@ func c11Recv(conn *p2p.Conn, kinds []int) c11RecvRes {
 			res.trace = append(res.trace, L(I(st), L(), I(conn.ReadStart), I(conn.ReadEnd), U64(conn.Stats.Recvd.Load())))
 			res.err = err
 			res.errAt = i
+			checkStats(i)
 			break
 		}
 		res.vals = append(res.vals, v)
-		res.trace = append(res.trace, L(I(0), v.sx(), I(conn.ReadStart), I(conn.ReadEnd), U64(conn.Stats.Recvd.Load())))
+		res.trace = append(res.trace, L(I(0), v.sx(sparse), I(conn.ReadStart), I(conn.ReadEnd), U64(conn.Stats.Recvd.Load())))
+		checkStats(i)
 	}
 	return res
 }
@@ -871,6 +926,75 @@ func c11GenScript(r *RNG, c *Ctx, mode int, class string) *c11Script {
 	return s
 }
 
+// c11AtSizeScript: one SendData/SendString payload of exactly the given size (around and
+// above readBufSize) between a few small values; matching receives; long byte strings are
+// described to the model as a cyclic pattern and compared by a sparse digest so that the
+// case stays cheap.  frag selects the read segmentation (0 = whole buffer).
+func c11AtSizeScript(r *RNG, c *Ctx, mode, size, kind, frag int) *c11Script {
+	s := &c11Script{class: "atsize", rclass: "match", sparse: true}
+	flushP := []int{0, 30, 100}[r.Intn(3)]
+	add := func(o c11Op) {
+		s.ops = append(s.ops, o)
+		if r.Intn(100) < flushP {
+			s.ops = append(s.ops, c11Op{kind: c11KFlush})
+		}
+	}
+	for j := r.Intn(3); j > 0; j-- {
+		add(c11RandOp(r, c, false))
+	}
+	seed := r.Intn(65536)
+	add(c11Op{kind: kind, data: c11CycBytes(size, seed), gen: true, cyc: true, seed: seed})
+	c.Hist("payload:" + c11SizeClass(size))
+	c.Hist(fmt.Sprintf("atsize:%s:readBufSize%+d", c11KindName(kind), size-c11ReadBuf))
+	for j := r.Intn(3); j > 0; j-- {
+		add(c11RandOp(r, c, false))
+	}
+	if mode == 0 && r.Intn(10) < 7 {
+		s.ops = append(s.ops, c11Op{kind: c11KClose})
+	} else if s.ops[len(s.ops)-1].kind != c11KFlush {
+		s.ops = append(s.ops, c11Op{kind: c11KFlush})
+	}
+	for _, o := range s.ops {
+		if o.kind < c11KFlush {
+			s.recv = append(s.recv, o.kind)
+		}
+	}
+	if mode == 1 {
+		s.fclass = "pipe-chunks"
+		return s
+	}
+	rest := c11StreamLen(s.ops) + 16
+	switch frag {
+	case 0:
+		s.segs, s.fclass = nil, "whole-buffer"
+	case 1:
+		s.segs, s.fclass = []c11Seg{{rest, 4096}}, "all-k-boundary"
+	case 2:
+		for i := 0; i < 400; i++ {
+			s.segs = append(s.segs, c11Seg{1, 1 + r.Intn(70000)})
+		}
+		s.fclass = "rand-1..70000"
+	case 3:
+		s.segs, s.fclass = []c11Seg{{rest, c11WriteBuf + 1}}, "all-k-boundary"
+	case 4:
+		if size <= c11ReadBuf+c11WriteBuf {
+			s.segs, s.fclass = []c11Seg{{rest, 1}}, "all-1"
+		} else {
+			s.segs, s.fclass = []c11Seg{{rest, 1000}}, "all-k-boundary"
+		}
+	case 5:
+		if size <= c11ReadBuf+c11WriteBuf {
+			s.segs, s.fclass = []c11Seg{{1, c11ReadBuf - r.Intn(3)}, {rest, 1 + r.Intn(3)}}, "buffer-then-tiny"
+		} else {
+			s.segs, s.fclass = []c11Seg{{rest, 100000}}, "all-k-boundary"
+		}
+	default:
+		s.segs, s.fclass = []c11Seg{{1, c11ReadBuf/2 + r.Intn(c11ReadBuf)}, {rest, 7 + r.Intn(30000)}}, "one-cut"
+	}
+	s.eofData = r.Intn(4) == 0
+	return s
+}
+
 func (s *c11Script) inputSX(mode int) SX {
 	ops := make([]SX, len(s.ops))
 	for i, o := range s.ops {
@@ -880,7 +1004,7 @@ func (s *c11Script) inputSX(mode int) SX {
 	for _, sg := range s.segs {
 		frags = append(frags, L(I(sg.count), I(sg.size)))
 	}
-	return L(I(mode), L(ops...), Ints(s.recv), L(frags...), Bool(s.eofData))
+	return L(I(mode), L(ops...), Ints(s.recv), L(frags...), Bool(s.eofData), Bool(s.sparse))
 }
 
 func (s *c11Script) text() string {
@@ -925,8 +1049,8 @@ func c11RunSession(mode int, ab, ba *c11Dir) (ok bool, closeErrs []error) {
 	wg.Add(4)
 	go func() { defer wg.Done(); ab.send = c11Send(A, ab.script.ops, ab.wire) }()
 	go func() { defer wg.Done(); ba.send = c11Send(B, ba.script.ops, ba.wire) }()
-	go func() { defer wg.Done(); ab.recv = c11Recv(B, ab.script.recv) }()
-	go func() { defer wg.Done(); ba.recv = c11Recv(A, ba.script.recv) }()
+	go func() { defer wg.Done(); ab.recv = c11Recv(B, ab.script.recv, ab.wire, ab.script.sparse) }()
+	go func() { defer wg.Done(); ba.recv = c11Recv(A, ba.script.recv, ba.wire, ba.script.sparse) }()
 	done := make(chan struct{})
 	go func() { wg.Wait(); close(done) }()
 	select {
@@ -944,7 +1068,7 @@ func c11RunSession(mode int, ab, ba *c11Dir) (ok bool, closeErrs []error) {
 		var ts c11SendRes
 		var tr c11RecvRes
 		go func() { defer wg2.Done(); ts = c11Send(A, tail, nil) }()
-		go func() { defer wg2.Done(); tr = c11Recv(B, tailRecv) }()
+		go func() { defer wg2.Done(); tr = c11Recv(B, tailRecv, nil, ab.script.sparse) }()
 		done2 := make(chan struct{})
 		go func() { wg2.Wait(); close(done2) }()
 		select {
@@ -1005,7 +1129,7 @@ func c11BufIDs(d *c11Dir) (trace []SX, chunks []SX, distinct int) {
 	}
 	if d.wire != nil {
 		for i, ch := range d.wire.chunks {
-			chunks = append(chunks, L(I(id(d.wire.cptr[i])), c11BytesSX(ch)))
+			chunks = append(chunks, L(I(id(d.wire.cptr[i])), c11BytesSX(ch, d.script.sparse)))
 		}
 	}
 	for i, p := range d.send.ptrs {
@@ -1040,9 +1164,32 @@ func c11Judge(c *Ctx, sess int, mode int, name string, d *c11Dir) {
 		fail("c11:send:error", d.send.err.Error())
 		return
 	}
+	// byte counters = bytes actually moved; the key names the payload class
+	maxPayload := 0
+	for _, o := range s.ops {
+		if (o.kind == c11KData || o.kind == c11KString) && len(o.data) > maxPayload {
+			maxPayload = len(o.data)
+		}
+	}
+	sfx := ""
+	if maxPayload > c11ReadBuf {
+		sfx = ":payload>readBufSize"
+	} else if maxPayload == c11ReadBuf {
+		sfx = ":payload=readBufSize"
+	}
 	// Sent = bytes handed to the transport
 	if d.send.sent != uint64(len(stream)) {
-		fail("c11:Stats.Sent", fmt.Sprintf("Stats.Sent=%d, bytes of all sent values=%d", d.send.sent, len(stream)))
+		fail("c11:stats:sent-differs-from-bytes-moved"+sfx, fmt.Sprintf("Stats.Sent=%d, bytes of all sent values=%d (largest payload %d)", d.send.sent, len(stream), maxPayload))
+	}
+	// Recvd = bytes served by the transport, after every receive
+	if d.recv.statAt >= 0 {
+		i := d.recv.statAt
+		what := fmt.Sprintf("after receive %d (%s", i, c11KindName(s.recv[i]))
+		if i < len(d.recv.vals) && (s.recv[i] == c11KData || s.recv[i] == c11KString) {
+			what += fmt.Sprintf(" of %d bytes", len(d.recv.vals[i].data))
+		}
+		fail("c11:stats:recvd-differs-from-bytes-moved"+sfx, fmt.Sprintf("%s): Stats.Recvd=%d, bytes served by the transport=%d (short by %d; readBufSize=%d)",
+			what, d.recv.statRecvd, d.recv.statMoved, int64(d.recv.statMoved)-int64(d.recv.statRecvd), c11ReadBuf))
 	}
 	if d.wire != nil {
 		d.wire.mu.Lock()
@@ -1060,8 +1207,8 @@ func c11Judge(c *Ctx, sess int, mode int, name string, d *c11Dir) {
 				fail("c11:wire:chunk-size", fmt.Sprintf("chunk of %d bytes", len(ch)))
 			}
 		}
-		if d.recvd != uint64(off) {
-			fail("c11:Stats.Recvd", fmt.Sprintf("Stats.Recvd=%d, bytes served by the transport=%d", d.recvd, off))
+		if d.recv.statAt < 0 && d.recvd != uint64(off) {
+			fail("c11:stats:recvd-differs-from-bytes-moved"+sfx, fmt.Sprintf("at the end: Stats.Recvd=%d, bytes served by the transport=%d (largest payload %d)", d.recvd, off, maxPayload))
 		}
 	}
 	// received values
@@ -1092,8 +1239,9 @@ func c11Judge(c *Ctx, sess int, mode int, name string, d *c11Dir) {
 				fail("c11:recv:overread-no-error", fmt.Sprintf("receive past the end of a closed stream returned err=%v at %d (expected an error at %d)", d.recv.err, d.recv.errAt, nExp))
 			}
 		}
-		if s.rclass == "match" && d.recv.err == nil && d.recvd != d.send.sent {
-			fail("c11:Stats.Recvd!=Sent", fmt.Sprintf("all values received, Recvd=%d Sent=%d", d.recvd, d.send.sent))
+		if s.rclass != "prefix" && len(d.recv.vals) >= len(sent) && d.recvd != d.send.sent {
+			fail("c11:stats:recvd-differs-from-sent"+sfx, fmt.Sprintf("all %d values received: receiver Stats.Recvd=%d, sender Stats.Sent=%d (short by %d; largest payload %d, readBufSize=%d)",
+				len(sent), d.recvd, d.send.sent, int64(d.send.sent)-int64(d.recvd), maxPayload, c11ReadBuf))
 		}
 	case "retyped":
 		if d.recv.err != nil {
@@ -1139,6 +1287,7 @@ func c11Clip(s string, n int) string {
 }
 
 func runC11(c *Ctx) error {
+	c11ProbeSizes()
 	type plan struct {
 		mode  int
 		class string
@@ -1157,17 +1306,53 @@ func runC11(c *Ctx) error {
 	if c.Thorough() {
 		plans = append(plans, plan{0, "huge", 8}, plan{1, "huge", 3})
 	}
+	// payloads around and above the read buffer: every size x {SendData, SendString} x
+	// {whole-buffer, fragmenting} over the scripted transport, and some over p2p.Pipe()
+	// All of them run the real code under the oracle; in the quick tier only those marked
+	// [model] are also correspondence cases (the extracted model needs about 3 s per MiB
+	// with the default OCaml GC settings), in the thorough tier all of them are.
+	type atSize struct {
+		mode, size, kind, frag int
+		model                  bool
+	}
+	var ats []atSize
+	sizes := []int{c11ReadBuf - 8, c11ReadBuf, c11ReadBuf + 1, c11ReadBuf + c11WriteBuf, 2*c11ReadBuf + 5, 3*c11ReadBuf + 5}
+	for i, sz := range sizes {
+		for k, kind := range []int{c11KData, c11KString} {
+			frag := 1 + (2*i+k)%6
+			ats = append(ats,
+				atSize{0, sz, kind, 0, i == 2 && k == 1},                  // whole buffer; model: String readBufSize+1
+				atSize{0, sz, kind, frag, (i == 1 || i == 3) && k == i/2}) // fragmenting; model: Data readBufSize, String readBufSize+writeBufSize
+		}
+	}
+	ats = append(ats, atSize{1, c11ReadBuf, c11KString, 0, false}, atSize{1, c11ReadBuf + c11WriteBuf, c11KData, 0, true},
+		atSize{1, 2*c11ReadBuf + 5, c11KString, 0, false})
+	if c.Thorough() {
+		for i := 0; i < 60; i++ {
+			sz := sizes[c.rng.Intn(len(sizes))] - 8 + c.rng.Intn(17)
+			ats = append(ats, atSize{i % 4 / 3, sz, c11KData + c.rng.Intn(2), c.rng.Intn(8), true})
+		}
+	}
+	plans = append(plans, plan{0, "atsize", len(ats)})
 	sess := 0
 	for _, p := range plans {
 		for i := 0; i < p.n; i++ {
 			r := c.rng.Fork()
-			ab := &c11Dir{script: c11GenScript(r, c, p.mode, p.class)}
-			// the other direction: usually small so that both directions overlap in time
-			cls2 := p.class
-			if p.class == "bigstream" || p.class == "huge" || r.Intn(3) == 0 {
-				cls2 = "small"
+			var ab, ba *c11Dir
+			if p.class == "atsize" {
+				a := ats[i]
+				p.mode = a.mode
+				ab = &c11Dir{script: c11AtSizeScript(r, c, a.mode, a.size, a.kind, a.frag)}
+				ba = &c11Dir{script: c11GenScript(r, c, a.mode, "small")}
+			} else {
+				ab = &c11Dir{script: c11GenScript(r, c, p.mode, p.class)}
+				// the other direction: usually small so that both directions overlap in time
+				cls2 := p.class
+				if p.class == "bigstream" || p.class == "huge" || r.Intn(3) == 0 {
+					cls2 = "small"
+				}
+				ba = &c11Dir{script: c11GenScript(r, c, p.mode, cls2)}
 			}
-			ba := &c11Dir{script: c11GenScript(r, c, p.mode, cls2)}
 			ok, _ := c11RunSession(p.mode, ab, ba)
 			if !ok {
 				c.Fail("c11:hang", "session did not finish within the watchdog time",
@@ -1196,7 +1381,11 @@ func runC11(c *Ctx) error {
 					}
 				}
 				c.Eval(fmt.Sprintf("%d|%s", p.mode, s.text()), nvals >= 2 && len(d.recv.vals) >= 1)
-				if d.send.err == nil {
+				asCase := p.class != "atsize" || di == 1 || c.Thorough() || ats[i].model
+				if !asCase {
+					c.Hist("atsize:oracle-only")
+				}
+				if d.send.err == nil && asCase {
 					trace, chunks, nbufs := c11BufIDs(d)
 					if nbufs > 3 {
 						c.Fail("c11:ring:more-than-numBuffers", fmt.Sprintf("%d distinct write buffers seen", nbufs),
